@@ -8,7 +8,13 @@ vectors 1-3 (embedded below).
 import hmac
 import hashlib
 
-from refs import secp256k1 as ec
+try:
+    from refs import secp256k1 as ec
+except ImportError:     # run directly: python refs/bip32.py
+    import os
+    import sys
+    sys.path.insert(0, os.path.dirname(os.path.dirname(os.path.abspath(__file__))))
+    from refs import secp256k1 as ec
 
 HARDENED = 0x80000000
 XPUB = bytes.fromhex('0488b21e')     # Bitcoin main-net version bytes (LBRY main-net uses the same)
@@ -339,9 +345,6 @@ def selftest():
 
 
 if __name__ == '__main__':
-    import sys
-    import os
-    sys.path.insert(0, os.path.dirname(os.path.dirname(os.path.abspath(__file__))))
     import time
     t = time.time()
     selftest()
